@@ -181,8 +181,8 @@ static Prog make_program(vh::Rng& rng, std::string& descr) {
 struct Inst {
     std::unique_ptr<Teakra::Teakra> t;
     WriteLog log;
-    Teakra::Teakra::Impl& impl() { return *TeakraVerifAccess::impl(*t); }
-    Interpreter& interp() { return TeakraVerifAccess::interpreter(*TeakraVerifAccess::impl(TeakraVerifAccess::processor(impl()))); }
+    auto& impl() { return *TeakraVerifAccess::impl(*t); }
+    auto& interp() { return TeakraVerifAccess::interpreter(*TeakraVerifAccess::impl(TeakraVerifAccess::processor(impl()))); }
 };
 
 static void observe(vh::Out& o, Inst& in) {
